@@ -757,7 +757,7 @@ func (e *Exec) accAddressFromBech32(s *SliceV) Value {
 	ok := tb.UF("b32ok", 0, sp)
 	// any bech32 string has at least 8 characters (abstract account strings, whose validity is an
 	// uninterpreted predicate realised natively by the replay run-time, are exempt)
-	if !e.abstractAddr[sp.id] {
+	if len(e.abstractAddr) == 0 {
 		e.addPC(tb.Implies(tb.Ult(s.len, tb.BV(8, 64)), tb.Not(ok)))
 	}
 	if !e.branch(ok) {
